@@ -34,12 +34,13 @@ def main():
         return vlib.finish(ctx, extra_trusted=getattr(mod, "TRUSTED", ()), assumptions=getattr(mod, "ASSUMPTIONS", ()))
     stage = "regen"
     try:
-        hits = vlib.gate_grep()
-        if hits:
-            ctx.problem("proof", "forbidden vernacular in the development", hits)
         mod.regen(ctx)
         stage = "prove"
-        if ctx.coq_build(ctx.targets, timeout=2400 if tier == "thorough" else 1500):
+        built = ctx.coq_build(ctx.targets, timeout=2400 if tier == "thorough" else 1500)
+        hits = vlib.gate_grep(vlib.dep_cone(ctx.targets))
+        if hits:
+            ctx.problem("proof", "forbidden vernacular in the development", hits)
+        if built:
             ctx.coq_props(ctx.prop_file)
             if tier == "thorough" and os.environ.get("VERIF_COQCHK", "1") == "1":
                 rc, out = vlib.sh(["coqchk", "-silent", "-o"] + vlib.COQ_Q + ["BVprops." + a.pid], timeout=1800,
